@@ -460,7 +460,7 @@ def run_pop_scenario(spec):
     inits = holder["inits"]
     n_swap = int(getattr(opt, "n_iter_swap", 1)) if kind != "ga" else int(opt.offspring)
     mrate = tok_rat(getattr(opt, "mutation_rate", 0)) if kind in ("es", "ga") else "0"
-    pnew = (f"pnew {kind} {opt.init.n_inits} {int(m0.n_neighbours)} {tok_rat(opt.rand_rest_p)} {n_swap} {mrate} {tok_rat(0.3)} {len(inits)} " +
+    pnew = (f"pnew {kind} {opt.init.n_inits} {int(m0.n_neighbours)} {tok_rat(opt.rand_rest_p)} {n_swap} {mrate} {tok_rat(0.3)} {int(getattr(opt, "n_parents", 0))} {len(inits)} " +
             " ".join(f"{len(l)} " + " ".join(" ".join(str(x) for x in p) for p in l) for l in inits))
     pnew = " ".join(pnew.split())
     f = real["f"]
